@@ -175,6 +175,13 @@ class _JobMixin(_NodeMixin):
                 await _spend(spec.get('cleanup') or ())
             except asyncio.CancelledError:
                 ctx.log('cancel_again', nid)
+            if spec.get('cleanup_outcome') == 'exc':
+                # the job does end, but by raising from its cancellation
+                # handler (a failing 'finally' clause)
+                exc = SimError(nid)
+                ctx.objs.setdefault(nid, {})['exc'] = exc
+                ctx.log('exit', nid, 'cexc')
+                raise exc
             ctx.log('exit', nid, 'cancelled')
             raise
         if outcome == 'exc':
